@@ -89,3 +89,18 @@ Definition run (ops : list op) : st := fold_left step ops empty.
 Definition single_source_count (t : st) : N :=
   N.of_nat (length (filter (fun kv => Nat.eqb (length (snd kv)) 1) (routes t))).
 Definition unique_count (t : st) : N := N.of_nat (length (routes t)).
+
+(* ---- risclient/risclient.go: the glue between an ObserveRIB stream and the merged table.
+   serviceLoop turns every received RIBUpdate into AddRoute / RemoveRoute and the end of the stream
+   (Recv error; deferred processDownEvent) into DropAllBySrc - all three with the SAME source key
+   r.cc of the client. Clients are numbered; the source key of client c is c. *)
+Inductive event := Adv (c : src) (r : rid) | Wd (c : src) (r : rid) | StreamEnd (c : src).
+
+Definition glue (e : event) : op :=
+  match e with
+  | Adv c r => Add c r          (* processAdvertisement: r.c.AddRoute(r.cc, u.Route) *)
+  | Wd c r => Remove c r        (* processWithdraw:      r.c.RemoveRoute(r.cc, u.Route) *)
+  | StreamEnd c => Drop c       (* processDownEvent:     r.c.DropAllBySrc(r.cc) *)
+  end.
+
+Definition run_events (evs : list event) : st := run (map glue evs).
